@@ -89,6 +89,9 @@ def rewrites():
     R.append(("From", "single field, tuple-typed conversion", ["#[from((u8, u16))] struct S((u32, u32));", "#[from((u8, u16),)] struct S((u32, u32));", "#[from((u8, u16))] #[from((u8, u16))] struct S((u32, u32));"][:2]))
     R.append(("Into", "single field, tuple-typed conversion", ["#[into((u8, u16))] struct S((u8, u16));", "#[into((u8, u16),)] struct S((u8, u16));", "#[into(owned((u8, u16)))] struct S((u8, u16));"]))
     R.append(("From", "one-element tuple type for one field", ["#[from((u8,))] struct S((u8,));", "#[from((u8,),)] struct S((u8,));"]))
+    R.append(("Into", "the fields' own type next to listed types, one kind", ["#[into(owned, owned(u16))] struct S(u8);", "#[into(owned(u16), owned)] struct S(u8);", "#[into(owned)] #[into(u16)] struct S(u8);"]))
+    R.append(("Into", "the fields' own type next to listed types, by reference", ["#[into(ref, ref(str))] struct S(String);", "#[into(ref(str), ref)] struct S(String);", "#[into(ref)] #[into(ref(str))] struct S(String);"]))
+    R.append(("Into", "the field's own type next to listed types, field level", ["struct S { #[into] #[into(u16)] a: u8, b: u8 }", "struct S { #[into(owned, owned(u16))] a: u8, b: u8 }", "struct S { #[into(u16)] #[into] a: u8, b: u8 }"]))
     R.append(("Into", "default is owned", ["struct S(u8, u16);", "#[into] struct S(u8, u16);", "#[into(owned)] struct S(u8, u16);"]))
     R.append(("Into", "field-level lists", ["struct S { #[into(u16, u32)] a: u8, b: u8 }", "struct S { #[into(u16)] #[into(u32)] a: u8, b: u8 }", "struct S { #[into(owned(u32, u16))] a: u8, b: u8 }"]))
     for d, a in (("AsRef", "as_ref"), ("AsMut", "as_mut")):
